@@ -266,7 +266,7 @@ def run(ctx):
         ctx.count(case_key=mods, nontrivial=True)
         if out.startswith(("CRASH", "HANG", "PANIC", "A=PANIC")) or "cyclic" not in out and "noitem" not in out:
             ctx.violation({"kind": "modgraph", "mods": mods, "go": out[:300]}, f"C15 regression {fid}: {out[:120]}")
-    two = list(mg.family_a()) + list(mg.family_b()) + list(mg.family_c()) + list(mg.family_e())
+    two = list(mg.family_a()) + list(mg.family_b()) + list(mg.family_c()) + list(mg.family_e()) + list(mg.family_r())
     for i in range(0, len(two), 1000):
         if len(ctx.violations) >= 5:
             ctx.note("stopped early: five violations reported")
